@@ -17,6 +17,9 @@ pub enum Flavour {
 
 pub struct ExecOut {
     pub resp: Option<J>,
+    /// `data` serialised in response-key order
+    pub data_text: String,
+    pub cache_control: String,
     pub log: Vec<REvent>,
     pub hooks: Vec<String>,
     pub end: End,
@@ -34,17 +37,24 @@ pub fn run_request(label: &str, flavour: Flavour, n_ext: usize, query: &str, par
     let (_, slot) = match flavour {
         Flavour::Static => {
             let schema = world::static_schema(n_ext);
-            sim::spawn_slot("request", async move { serde_json::to_value(schema.execute(Request::new(q)).await).unwrap() })
+            sim::spawn_slot("request", async move { ser(schema.execute(Request::new(q)).await) })
         }
         Flavour::Dynamic => {
             let schema = world::dynamic_schema(n_ext);
-            sim::spawn_slot("request", async move { serde_json::to_value(schema.execute(Request::new(q)).await).unwrap() })
+            sim::spawn_slot("request", async move { ser(schema.execute(Request::new(q)).await) })
         }
     };
     let end = sim::run(100_000);
-    let resp = slot.take();
+    let r = slot.take();
     let (log, hooks) = world(|w| (std::mem::take(&mut w.log), std::mem::take(&mut w.hooks)));
-    ExecOut { resp, log, hooks, end }
+    match r {
+        Some((resp, data_text, cache_control)) => ExecOut { resp: Some(resp), data_text, cache_control, log, hooks, end },
+        None => ExecOut { resp: None, data_text: String::new(), cache_control: String::new(), log, hooks, end },
+    }
+}
+
+fn ser(resp: async_graphql::Response) -> (J, String, String) {
+    (serde_json::to_value(&resp).unwrap(), serde_json::to_string(&resp.data).unwrap(), format!("{:?}", resp.cache_control))
 }
 
 /// One scripted subscription event.
